@@ -45,9 +45,13 @@ def cases(tier, seed):
         cells = [{"shape": rnd.choice(["box", "octa", "tetra"]), "dims": [rnd.randint(1, 2) for _ in range(3)], "k": 1,
                   "at": [base[a] + rnd.randint(-3, 3) for a in range(3)], "type": types[i]} for i in range(k)]
         add(cells, rnd.choice([1.0, 2.0 ** -17]), rnd.choice([1, 2]), rnd.choice([1, 2]))
+    # a tissue with more than 65536 faces in total (a finely meshed bystander far away, listed FIRST, then two small cells in contact):
+    # global face numbers, offsets and counters beyond 16 bits
+    add([{"shape": "sphere", "level": 7, "dims": [1, 1, 1], "k": 1, "at": [2000, 0, 0], "type": 2},
+         {"shape": "box", "dims": [2, 2, 2], "k": 1, "at": [0, 0, 0], "type": 4}, {"shape": "box", "dims": [1, 1, 1], "k": 1, "at": [1, 1, 1], "type": 2}], 1.0, 1, 1)
     # histories: cells whose node / face lists contain unused slots before live elements (what edge collapses leave behind until
     # the next compaction; contact detection runs on such cells in every iteration that follows a collapse)
-    for c in list(out[:: 3 if tier == "quick" else 1]):
+    for c in [x for x in out[:: 3 if tier == "quick" else 1] if not any(cc["shape"] == "sphere" for cc in x["cells"])]:
         d = json.loads(json.dumps(c))
         for cc in d["cells"]:
             cc["frag"] = rnd.choice([1, 2, 3, 5])
